@@ -11,6 +11,7 @@ import Mahotas.Proofs.C07Currank
 import Mahotas.Proofs.C07Float
 import Mahotas.Proofs.C07FloatBound
 import Mahotas.Proofs.C07Mean
+import Mahotas.Proofs.C07Iso
 import Mahotas.Proofs.C07Defined
 import Mahotas.Proofs.C07Majority
 import Mahotas.Properties.C01
@@ -761,6 +762,30 @@ example :
   rw [hg] at h
   have h2 := Mahotas.C05.rne53_rounding.exact_int 2 (by norm_num)
   exact h (by decide) (by simpa using h2)
+
+/-- **C07-R4g (the rank filter is invariant under order embeddings of the values).** `rank_filter` / `median_filter` only
+compare samples: for every strictly increasing `g : ℤ → ℤ` with `g 0 = 0` (0 is the `cval` of `constant` mode), every mode,
+image, neighbourhood, rank and pixel, filtering the re-encoded image gives the re-encoded result:
+`rankAt m (mapImg g f) … = (rankAt m f …).map g` (both undefined together). This is the fact by which the check feeds FLOAT
+images to the integer model: quarter-integers through `x ↦ 4x`, arbitrary non-NaN floats (denormals, ±inf; not −0.0) through
+`x ↦ sign(x)·bits(|x|)` — the float order is the integer order of the codes, and the real output decodes to the model's. -/
+theorem C07_rank_order_embedding (g : Int → Int) (hg : StrictMono g) (h0 : g 0 = 0) (m : Mode) (f : Img Int)
+    (fp : List (List Int)) (rank : Int) (p : List Int) :
+    rankAt m (mapImg g f) fp rank p = (rankAt m f fp rank p).map g :=
+  rankAt_mapImg g hg h0 m f fp rank p
+
+/-- non-vacuity: `x ↦ 4x` on the 2×2 image of the earlier examples, ignore mode at the corner: rank 2 of the cross gives
+    5 there and 20 on the re-encoded image -/
+example :
+    let f : Img Int := { shape := [2, 2], data := #[7, 1, 5, 3] }
+    let fp := footprint [3, 3] #[0, 1, 0, 1, 1, 1, 0, 1, 0]
+    StrictMono (fun x : Int => 4 * x) ∧ (mapImg (fun x => 4 * x) f).data.toList = [28, 4, 20, 12] ∧
+    rankAt .ignore (mapImg (fun x => 4 * x) f) fp 2 [0, 0] = some 20 := by
+  intro f fp
+  have hm : StrictMono (fun x : Int => 4 * x) := fun a b h => by simp only; omega
+  refine ⟨hm, by simp [mapImg, f], ?_⟩
+  rw [C07_rank_order_embedding _ hm (by norm_num), C07_rank_eq_spec _ _ (by decide)]
+  decide
 
 /-- **C07-R4d (`majority_filter`, closed form of the loops).** For a 2-D image `rows × cols` and window size `N` (the
 wrapper replaces an even `N` by `N + 1`, `majorityN`), `py_majority_filter` — output cleared, nothing done when
